@@ -1,4 +1,5 @@
 import KG.Base.Json
+import KG.Gen.C08
 /-!
 # Model of the limiter server's "global count" strategy (property C08)
 
@@ -313,14 +314,16 @@ def bucketResize (b : Bucket) (qps burst : Int) : Bucket × Bool :=
 
 /-- The token-bucket arm of `DoAcquire`: `for i := 0; i < 4; i++ { accept = TryAcquireN(token); if accept
     { limit = token; break }; token = token / 2; if token <= 0 { break } }`. `nows` are the clock readings
-    of the successive `TryAcquireN` calls (one is consumed per try; four are supplied). -/
+    of the successive `TryAcquireN` calls: one is consumed per try, so the loop bound is the length of the
+    list (`acquireOne` hands in `KG.Gen.C08.tbTries` = 4 readings; the divisor is `KG.Gen.C08.tbDivisor` = 2,
+    both re-read from the Go source on every check). -/
 def tbLoop (b : Bucket) (token : Int) : List Int → Bucket × Bool × Int
   | [] => (b, false, 0)
   | now :: nows =>
     let (b', ok) := allowN b now token
     if ok then (b', true, token)
     else
-      let token := token / 2   -- token ≥ 0 here: Go's truncated division = floor division
+      let token := token / KG.Gen.C08.tbDivisor   -- token ≥ 0 here: Go's truncated division = floor division
       if token ≤ 0 then (b', false, 0) else tbLoop b' token nows
 
 /-! ## the flow controls of one upstream in the local store, and `DoAcquire` -/
@@ -440,7 +443,7 @@ def acquireOne (st : Store) (inst : Str) (requestId : Int) (name : Str) (tokens 
     else
       match fc with
       | .tb b =>
-        let (b', accept, limit) := tbLoop b tokens nows
+        let (b', accept, limit) := tbLoop b tokens (nows.take KG.Gen.C08.tbTries)
         ({ st with fcs := putFC name (.tb b') st.fcs }, ⟨accept, limit, .none⟩)
       | .mif g =>
         let (g', r) := setState g inst requestId tokens
